@@ -259,7 +259,7 @@ func c29Gen(g *Gen, tier string, w *bufio.Writer) {
 		joinLine(nws[g.Intn(3)], kind, nL, nR, m, stop, errL, errR)
 	}
 	// 6. data-race SEARCH: whole queries through the race-detector build of the binary
-	nr := 8
+	nr := len(c29RaceQueries)
 	if tier == "thorough" {
 		nr = 90
 	}
